@@ -296,13 +296,25 @@ Section Eval.
   Definition to_key (v : val) : option string :=
     match v with VStr s => Some s | VNum n => Some (dec n) | _ => None end.
 
+  (* ToString of a value as the + operator sees it; objects (the inputs object included) stringify without reading
+     any of their own fields *)
+  Definition to_str (v : val) : option string :=
+    match v with
+    | VStr s => Some s
+    | VNum n => Some (dec n)
+    | VBool b => Some (if b then "true" else "false")
+    | VUndef => Some "undefined"
+    | VInp | VObj _ => Some "[object Object]"
+    | VClos _ _ _ => None
+    end.
   Definition add_val (a b : val) : option val :=
     match a, b with
-    | VStr x, VStr y => Some (VStr (x ++ y))
     | VNum x, VNum y => Some (VNum (x + y))
-    | VStr x, VNum y => Some (VStr (x ++ dec y))
-    | VNum x, VStr y => Some (VStr (dec x ++ y))
-    | _, _ => None
+    | VStr x, _ => match to_str b with Some y => Some (VStr (x ++ y)) | None => None end
+    | _, VStr y => match to_str a with Some x => Some (VStr (x ++ y)) | None => None end
+    | VInp, _ | VObj _, _ => match to_str b with Some y => Some (VStr ("[object Object]" ++ y)) | None => None end
+    | _, VInp | _, VObj _ => match to_str a with Some x => Some (VStr (x ++ "[object Object]")) | None => None end
+    | _, _ => None           (* numeric addition involving booleans / undefined: outside the model *)
     end.
 
   (* names declared with var in a function body, not descending into nested functions *)
